@@ -10,6 +10,7 @@ package neutrino
 import (
 	"bytes"
 	"errors"
+	"time"
 
 	"github.com/btcsuite/btcd/btcutil/v2"
 	"github.com/btcsuite/btcd/btcutil/v2/gcs"
@@ -276,7 +277,18 @@ func VerifH_C09_walk() {
 	quit := make(chan struct{})
 	startHeight := vpRange("startHeight", 0, 1)
 	start := c.best[startHeight]
+	// an optional start time: transactions are wanted from the first block
+	// whose timestamp is after it (height startAt and above)
+	startAt := 0
+	startTime := time.Time{}
+	if vpParam("starttimes", 1) == 1 {
+		startAt = vpRange("startTimeBeforeHeight", 0, n+1)
+		if startAt > 0 {
+			startTime = time.Unix(vpBaseTime+int64(startAt)*600-1, 0)
+		}
+	}
 	rs, err := newRescanState(c,
+		StartTime(startTime),
 		StartBlock(&headerfs.BlockStamp{Height: int32(startHeight), Hash: start.BlockHash()}),
 		WatchInputs(InputWithScript{OutPoint: watched, PkScript: watchScript}),
 		QuitChan(quit),
@@ -338,7 +350,15 @@ func VerifH_C09_walk() {
 					}
 				}
 			}
-			vpAssert(ev.txs == spends, "relevant-transactions-delivered-with-their-block")
+			if int(ev.height) >= startAt {
+				vpAssert(ev.txs == spends, "relevant-transactions-delivered-with-their-block")
+				if startAt > 0 && spends > 0 {
+					vpReach("relevant-tx-at-or-after-the-start-time")
+				}
+			} else {
+				// before the start time a block may be reported without its transactions
+				vpAssert(ev.txs <= spends, "no-irrelevant-transaction-delivered")
+			}
 			seenSpend += spends
 		} else {
 			vpAssert(ev.header == cur && ev.height == curH, "disconnect-removes-exactly-the-current-block")
